@@ -6,6 +6,7 @@
    most `remaining` empty content blocks (each consumes bytes of the stream: zf > M always
    suffices); every iteration of the linear extraction loop consumes at least one byte of the
    stream. *)
+From MLA Require Import Limit.
 From MLA Require Import Base Stream Blocks Reader Total.
 From Coq Require Import ZifyBool ZifyNat ZifyN.
 Open Scope N_scope.
@@ -13,6 +14,7 @@ Open Scope N_scope.
 Ltac fin := repeat split; auto; try (apply total_err; assumption); try discriminate; try (intros; discriminate).
 
 Section ReaderTotal.
+  Context {LIM : Limit}.
   Variable FNMAX : N.
   Variables T_START T_CONTENT T_EOA T_EOF : N.
   Variable S : Stream.
